@@ -43,6 +43,10 @@ type Source struct {
 type C17Case struct {
 	Dirs      [][]Entry    `json:"dirs"`
 	Table     []FilterSpec `json:"table"` // applied in order on top of the default table
+	// Table2 is applied to the same converter after it has been used once:
+	// removals and replacements of patterns that are in the table (so that no
+	// new name starts to match); the payload must then follow the new table.
+	Table2 []FilterSpec `json:"table2,omitempty"`
 	Sources   []Source     `json:"sources"`
 	UseBinary bool         `json:"use_binary"` // also compare with curlrevshell -print-ctrl-i
 }
@@ -328,6 +332,39 @@ func runC17(t testing.TB, c C17Case) (key, what string, stats map[string]int) {
 	if !bytes.Equal(got, snapshot) {
 		return "result-changed-by-later-call", "the payload returned by the first call changed when From was called again", stats
 	}
+	// the table changes after the converter has been used
+	if len(c.Table2) > 0 {
+		for _, sp := range c.Table2 {
+			var f shellfuncsfile.Filter
+			switch {
+			case sp.Marker > 0:
+				f = markerFilter(sp.Marker)
+			case sp.Marker == -1:
+				f = shellfuncsfile.FromShell
+			case sp.Marker == -2:
+				f = shellfuncsfile.FromPerl
+			}
+			conv.SetFilter(sp.Pattern, f)
+			if f == nil {
+				delete(table, sp.Pattern)
+			} else {
+				table[sp.Pattern] = f
+			}
+		}
+		parts2, _, err := expected(dirs, c, table)
+		if err != nil {
+			panic(fmt.Sprintf("reference: %v", err))
+		}
+		got3, err := conv.From(srcs...)
+		if err != nil {
+			return "from-error-after-table-change", fmt.Sprintf("after the filter table was changed (%+v) on a converter that had been used, From failed although every eligible file is readable: %v", c.Table2, err), stats
+		}
+		if ok, why := matchParts(got3, parts2); !ok {
+			return "payload-mismatch-after-table-change", fmt.Sprintf("after the filter table was changed (%+v) on a converter that had been used: %s", c.Table2, why), stats
+		}
+		stats["table-changed-after-use"]++
+		return "", "", stats
+	}
 	// differential through the real program: curlrevshell -print-ctrl-i prints
 	// the payload followed by the list function (default table, one source)
 	if bin := os.Getenv("VERIF_BIN"); bin != "" && len(c.Table) == 0 && len(srcs) == 1 && c.UseBinary {
@@ -414,6 +451,19 @@ func genC17() *rapid.Generator[C17Case] {
 			}
 		}
 		_, table := buildTable(c.Table)
+		if rapid.IntRange(0, 3).Draw(t, "table2") == 0 {
+			var have []string
+			for p := range table {
+				have = append(have, p)
+			}
+			sort.Strings(have)
+			for i := rapid.IntRange(1, 3).Draw(t, "nspec2"); i > 0 && len(have) > 0; i-- {
+				c.Table2 = append(c.Table2, FilterSpec{
+					Pattern: rapid.SampledFrom(have).Draw(t, "pat2"),
+					Marker:  rapid.SampledFrom([]int{0, 0, 0, 5, 6, -1}).Draw(t, "marker2"),
+				})
+			}
+		}
 		ndirs := rapid.IntRange(1, 2).Draw(t, "ndirs")
 		for d := 0; d < ndirs; d++ {
 			n := rapid.IntRange(0, 12).Draw(t, "nent")
